@@ -533,7 +533,10 @@ func (s *JavaFullListener) EnterMethodCall(ctx *parser.MethodCallContext) {
 	if targetCtx.GetChild(0) != nil {
 		switch x := targetCtx.GetChild(0).(type) {
 		case *parser.MethodCallContext:
-			targetType = x.Identifier().GetText()
+			// this(...) and super(...) are method calls without an identifier
+			if x.Identifier() != nil {
+				targetType = x.Identifier().GetText()
+			}
 		}
 	}
 
